@@ -399,3 +399,23 @@ func (fc *FnCtx) checkRegionInFrame(st *State, reg region, m *Clause) {
 	}
 	fc.assertNamed(st, or(alts...), "frame", "", "callee's modifies ("+m.Text+") is covered by the caller's modifies clause", token.NoPos)
 }
+
+func (fc *FnCtx) checkFrameKey(st *State, key, base, what string, pos token.Pos) {
+	if !fc.checkingFrame {
+		return
+	}
+	alts := []string{fc.isFresh(base)}
+	for _, r := range fc.frame {
+		if r.key == "*" {
+			return
+		}
+		if r.key != key {
+			continue
+		}
+		if r.base == "" {
+			return
+		}
+		alts = append(alts, app("=", base, r.base))
+	}
+	fc.assertNamed(st, or(alts...), "frame", "", what+" is covered by the modifies clause", pos)
+}
